@@ -61,6 +61,7 @@ def run(chk):
     hunt3_rules(chk, repo)
     hunt4_rules(chk, repo)
     round6_rules(chk, repo)
+    hunt5_rules(chk, repo)
     # ---- C06.eofdone (shared with C02) ------------------------------------------------------------------
     eof_at_completion(chk, repo)
 
@@ -457,6 +458,45 @@ def hunt4_rules(chk, repo):
     from rules import C01
     C01.te10_rule(chk, repo.func("aiohttp/http_parser.py", "HttpResponseParser.parse_message"), "C06.te10", "response",
                   "the client pools a connection after an `HTTP/1.0 200` with `Connection: keep-alive` and `Transfer-Encoding: chunked`: an HTTP/1.0 relay that framed the message by close sends the rest of it as the answer to the next request on that connection (the request parser closes in the same situation)")
+
+
+def hunt5_rules(chk, repo):
+    """Rules written after the fifth defect hunt (F304, F305)."""
+    # ---- C06.pool.timer: a connection goes into the pool without a running read timer ----------------------------------------------------------------------
+    # A request writer that finishes after its response was complete (early answer to an upload) arms sock_read when nobody reads any more; the
+    # connection is pooled, the timer fires on the idle connection and the next request on it fails with SocketTimeoutError at once.
+    rel = repo.func(CONN, "BaseConnector._release")
+    g = cfg_of(rel.node)
+    pools = [n for n in g.nodes if n.in_finally_copy is None and n.kind == "stmt" and K.node_has(n, "self._conns[$K].append($X)")]
+    drops = [n for n in g.nodes if n.kind == "stmt" and any(isinstance(c.func, ast.Attribute) and c.func.attr in ("_drop_timeout", "drop_timeout") for c in K.node_calls(n))]
+    if not pools:
+        chk.analysis_error("C06.pool.timer: the statement that pools the connection was not found in BaseConnector._release")
+    else:
+        p_ = g.find_path([g.entry], lambda n: n in pools, lambda n: n in drops, EXPLICIT)
+        if p_ is None:
+            chk.ok("C06.pool.timer", pools[0].ast, "_release(): the protocol's read timer is dropped before the connection is pooled")
+        else:
+            chk.violation("C06.pool.timer", pools[0].ast, K.short(pools[0].ast), "protocol._drop_timeout() before the connection is pooled",
+                          "a POST with a streamed body is answered early with a complete keep-alive response; the last body chunk is written after the response was parsed and _write_bytes() ends with start_timeout(): the connection is pooled with sock_read armed, the timer fires while it idles and the next request on it raises SocketTimeoutError 1 ms after it started, on a healthy connection", path=g.fmt_path(p_))
+    # ---- C06.idle.new: a new connection is watched like a pooled one until its first request head is written ----------------------------------------------------
+    init = repo.func(CONN, "BaseConnector.__init__")
+    fdefs = [a.value for a in ast.walk(init.node) if isinstance(a, ast.Assign) and norm.raw(a.targets[0]) == "self._factory"]
+    ok_ = False
+    if fdefs and isinstance(fdefs[0], ast.Call) and fdefs[0].args:
+        made = fdefs[0].args[0]
+        r_ = repo.resolve_name(repo.module(CONN), made.id) if isinstance(made, ast.Name) else None
+        if r_ and r_[0] == "func":
+            ok_ = any(isinstance(a, ast.Assign) and isinstance(a.targets[0], ast.Attribute) and a.targets[0].attr == "idle" and isinstance(a.value, ast.Constant) and a.value.value is True for a in ast.walk(r_[1].node))
+        elif r_ and r_[0] == "class":
+            ca = repo.class_attr(r_[1], "idle")
+            ok_ = ca is not None and isinstance(ca[1], ast.Constant) and ca[1].value is True
+    if not fdefs:
+        chk.analysis_error("C06.idle.new: `self._factory = ...` not found in BaseConnector.__init__")
+    elif ok_:
+        chk.ok("C06.idle.new", fdefs[0], "the connector's protocol factory creates protocols marked idle: bytes that arrive before the first request head is written close the connection (C06.idle.input)")
+    else:
+        chk.violation("C06.idle.new", fdefs[0], K.short(fdefs[0]), "a factory that sets proto.idle = True",
+                      "a brand-new protocol starts with idle=False: bytes a peer sends right after accept (before any request) are parked in _tail and replayed into the parser of the first request - `GET /a` returns the greeting as its response although the server got the request head 50 ms after it had sent those bytes; the watch that closes re-acquired connections never sees a new one")
 
 
 def round6_rules(chk, repo):
